@@ -61,31 +61,37 @@ func (r *Run) unguardedErrorSites(f *ssa.Function) []unguarded {
 					if fc.Kind == "ok" && fc.A != nil && fc.A.String() == ct {
 						return true
 					}
+					// `v, err = f(…)` in several branches, one test after the join: nil on the merged error
+					if fc.Kind == "okany" {
+						for _, t := range fc.List {
+							if t != nil && t.String() == ct {
+								return true
+							}
+						}
+					}
 				}
 				return false
 			}
-			// the error is returned as is (tail position): `return f(x)` or `return v, err`
-			tail := false
+			// a return that hands the call's own error on (`return f(x)`, `return v, err`) is a success only
+			// when that error is nil: such a return is never a violation for this call
+			propagates := map[*ssa.BasicBlock]bool{}
 			for rb := range succRet {
 				ret := rb.Instrs[len(rb.Instrs)-1].(*ssa.Return)
 				ev := core.RetOp(ret, len(ret.Results)-1)
 				for _, l := range phiLeaves(ev) {
 					if l == ssa.Value(c) {
-						tail = true
+						propagates[rb] = true
 					}
 					if ex, isEx := l.(*ssa.Extract); isEx && ex.Tuple == ssa.Value(c) {
-						tail = true
+						propagates[rb] = true
 					}
 				}
-			}
-			if tail {
-				continue
 			}
 			// can a success return be reached from the call without crossing ok(call)?
 			seen := map[*ssa.BasicBlock]bool{}
 			var dfs func(x *ssa.BasicBlock) bool
 			dfs = func(x *ssa.BasicBlock) bool {
-				if succRet[x] {
+				if succRet[x] && !propagates[x] {
 					return true
 				}
 				for _, s := range x.Succs {
